@@ -31,14 +31,23 @@ void run (string key) {
   }
 }
 
-void fired (int f, mixed tag) {
+// `coa`/`coafp` call_outs (tags "A...") carry three more arguments that are a function of the tag: a string, an
+// object (o2; 0 once it is destructed) and a number.  The callback checks number, order and values of what it
+// receives and prints a line only when they are wrong (any such line is an `unexpected-line` verdict of the oracle).
+object peer () { return "/vreg"->get ("o2"); }
+void fired (int f, mixed tag, mixed a, mixed b, mixed c) {
   VL (VNOW + " fire " + oid + " " + f + " " + tag + " " + tp ());
+  if (stringp (tag) && strlen (tag) && tag[0] == 'A') {
+    if (!stringp (a) || a != "x" + tag || b != peer () || !intp (c) || c != 42 + strlen (tag))
+      VL ("argmismatch " + oid + " " + tag);
+  } else if (a || b || c)
+    VL ("argmismatch " + oid + " " + tag);
   run ("co:" + tag);
 }
-void co0 (mixed tag) { fired (0, tag); }
-void co1 (mixed tag) { fired (1, tag); }
-void co2 (mixed tag) { fired (2, tag); }
-void co3 (mixed tag) { fired (3, tag); }
+void co0 (mixed tag, mixed a, mixed b, mixed c) { fired (0, tag, a, b, c); }
+void co1 (mixed tag, mixed a, mixed b, mixed c) { fired (1, tag, a, b, c); }
+void co2 (mixed tag, mixed a, mixed b, mixed c) { fired (2, tag, a, b, c); }
+void co3 (mixed tag, mixed a, mixed b, mixed c) { fired (3, tag, a, b, c); }
 
 int cmp_info (mixed *a, mixed *b) {
   if (a[0] != b[0]) return a[0] < b[0] ? -1 : 1;
@@ -59,6 +68,18 @@ mixed do_op (string s) {
   case "cofp": { // cofp <f> <delay> <tag>: function-pointer call_out (cop->ob == 0 in call_out.c)
     function *fps = ({ (: co0 :), (: co1 :), (: co2 :), (: co3 :) });
     r = call_out (fps[to_int (w[1])], parse_int (w[2]), w[3]);
+    handles[w[3]] = r;
+    VL (VNOW + " r cofp " + oid + " " + w[1] + " " + w[2] + " " + w[3] + " " + r + " " + tp ());
+    break;
+  }
+  case "coa":  // coa <f> <delay> <tag>: the same with three more arguments (see fired ())
+    r = call_out ("co" + w[1], parse_int (w[2]), w[3], "x" + w[3], peer (), 42 + strlen (w[3]));
+    handles[w[3]] = r;
+    VL (VNOW + " r co " + oid + " " + w[1] + " " + w[2] + " " + w[3] + " " + r + " " + tp ());
+    break;
+  case "coafp": {
+    function *fps = ({ (: co0 :), (: co1 :), (: co2 :), (: co3 :) });
+    r = call_out (fps[to_int (w[1])], parse_int (w[2]), w[3], "x" + w[3], peer (), 42 + strlen (w[3]));
     handles[w[3]] = r;
     VL (VNOW + " r cofp " + oid + " " + w[1] + " " + w[2] + " " + w[3] + " " + r + " " + tp ());
     break;
@@ -89,6 +110,12 @@ mixed do_op (string s) {
     VL (VNOW + " r dest " + oid + " " + w[1]);
     break;
   }
+  case "destco":  // destco <oid>: destruct itself, then try to schedule: f_call_out must refuse (returns 0)
+    destruct (this_object ());
+    r = call_out ("co0", 1, "Z");
+    if (r) VL ("scheduled-by-destructed " + oid + " " + r);
+    VL (VNOW + " r dest " + oid + " " + w[1]);
+    break;
   case "reload":  // remove_all_call_out (this_object ()) + variable reset + create ()
     reload_object (this_object ());
     VL (VNOW + " r reload " + oid);
@@ -110,9 +137,15 @@ mixed do_op (string s) {
     mixed *rows = ({ });
     string t = "";
     // rows of function-pointer call_outs whose owner is destructed carry 0 as object: dropped here
-    foreach (mixed *e in inf) if (objectp (e[0])) rows += ({ ({ "/vreg"->oid_of (e[0]), e[1], e[2] }) });
+    // an element that is not a 3-element row is printed as "?" (a malformed line for the oracle)
+    int junk = 0;
+    foreach (mixed e in inf) {
+      if (!arrayp (e) || sizeof (e) != 3) { junk++; continue; }
+      if (objectp (e[0])) rows += ({ ({ "/vreg"->oid_of (e[0]), e[1], e[2] }) });
+    }
     rows = sort_array (rows, "cmp_info");
     foreach (mixed *e in rows) t += " " + e[0] + "/" + e[1] + "/" + e[2];
+    while (junk-- > 0) t += " ?";
     VL (VNOW + " r info" + t);
     break;
   }
